@@ -148,7 +148,7 @@ FUNC_HEAD = ("func.func private @g() -> ()\n"
 
 
 class ProgGen:
-    def __init__(self, rng, accs, vtype="i32", pairs=False):
+    def __init__(self, rng, accs, vtype="i32", pairs=False, carry=False):
         # accs: list of (name, [field names used], [launch field names]); pairs: RoCC style, a setup configures
         # whole instructions (both .rs1 and .rs2), as every accfg producer in the compiler does
         self.r = rng
@@ -156,12 +156,14 @@ class ProgGen:
         self.n = 0
         self.vtype = vtype
         self.pairs = pairs
+        self.carry = carry
 
     def fresh(self, p="v"):
         self.n += 1
         return f"%{p}{self.n}"
 
-    def setup_launch(self, vals, ind):
+    def setup_launch(self, vals, ind, force=()):
+        """force: values that must be configured by this setup (results of a preceding loop / conditional)"""
         name, fields, lfields = self.r.choice(self.accs)
         st = f'!accfg.state<"{name}">'
         tk = f'!accfg.token<"{name}">'
@@ -173,8 +175,13 @@ class ProgGen:
         out = []
         s = self.fresh("s")
         params = []
+        force = list(force)
+        if force:
+            fs = (fs + [f for f in fields if f not in fs])[:max(len(fs), min(len(fields), len(force)))]
         for f in fs:
-            if self.r.random() < 0.12:
+            if force:
+                params.append(f'"{f}" = {force.pop(0)} : {self.vtype}')
+            elif self.r.random() < 0.12:
                 params.append(f'"{f}" = {self.r.choice(["%lb", "%ub", "%st"])} : index')
             else:
                 params.append(f'"{f}" = {self.r.choice(vals)} : {self.vtype}')
@@ -190,11 +197,58 @@ class ProgGen:
         return out
 
     def block(self, vals, depth, ind, nst):
+        return self.block_v(vals, depth, ind, nst)[0]
+
+    def carried_if(self, vals, depth, ind):
+        """scf.if with 1..3 data results of the value type, used by a setup right after it"""
+        n = self.r.choice([1, 2, 2, 3])
+        res = [self.fresh("q") for _ in range(n)]
+        tys = ", ".join([self.vtype] * n)
+        out = [f'{ind}{", ".join(res)} = scf.if {self.r.choice(["%c0", "%c1"])} -> ({tys}) {{']
+        for last in (False, True):
+            body, bv = self.block_v(vals, depth - 1, ind + "  ", self.r.randint(0, 3))
+            out += body
+            out.append(f'{ind}  scf.yield {", ".join(self.r.choice(bv) for _ in range(n))} : {tys}')
+            out.append(f"{ind}}}" if last else f"{ind}}} else {{")
+        return out, res
+
+    def carried_for(self, vals, depth, ind):
+        """scf.for walking 1..3 values of the value type next to whatever state the tracer adds"""
+        n = self.r.choice([1, 2, 2, 3])
+        res = [self.fresh("r") for _ in range(n)]
+        args = [self.fresh("a") for _ in range(n)]
+        inits = self.r.sample(vals, n) if len(vals) >= n and self.r.random() < 0.8 else [self.r.choice(vals) for _ in range(n)]
+        tys = ", ".join([self.vtype] * n)
+        i = self.fresh("i")
+        ii = self.fresh()
+        out = [f'{ind}{", ".join(res)} = scf.for {i} = %lb to %ub step %st iter_args('
+               + ", ".join(f"{a} = {v}" for a, v in zip(args, inits)) + f") -> ({tys}) {{",
+               f"{ind}  {ii} = arith.index_cast {i} : index to {self.vtype}"]
+        nxt = []
+        for a in args:
+            v = self.fresh()
+            out.append(f"{ind}  {v} = arith.addi {a}, {self.r.choice(vals + [ii] + args)} : {self.vtype}")
+            nxt.append(v)
+        body, bv = self.block_v(vals + [ii] + args + nxt, depth - 1, ind + "  ", self.r.randint(1, 3))
+        out += body
+        ys = [v if self.r.random() < 0.8 else self.r.choice(bv) for v in nxt]
+        out.append(f'{ind}  scf.yield {", ".join(ys)} : {tys}')
+        out.append(f"{ind}}}")
+        return out, res
+
+    def block_v(self, vals, depth, ind, nst):
+        """-> (lines, values defined at the top level of the block, usable by its terminator)"""
         out = []
         vals = list(vals)
         for _ in range(nst):
             k = self.r.random()
-            if k < 0.5:
+            if self.carry and depth > 0 and k < 0.22:
+                lines, res = (self.carried_for if k < 0.12 else self.carried_if)(vals, depth, ind)
+                out += lines
+                vals += res
+                if self.r.random() < 0.8:
+                    out += self.setup_launch(vals, ind, force=res)
+            elif k < 0.5:
                 out += self.setup_launch(vals, ind)
             elif k < 0.58:
                 v = self.fresh()
@@ -219,12 +273,23 @@ class ProgGen:
                 out.append(f"{ind}  {ii} = arith.index_cast {i} : index to {self.vtype}")
                 out += self.block(vals + [ii], depth - 1, ind + "  ", self.r.randint(1, 4))
                 out.append(f"{ind}}}")
-        return out
+        return out, vals
 
     def program(self):
         body = self.block(ARGS, 2, "  ", self.r.randint(2, 5))
         head = FUNC_HEAD if self.vtype == "i32" else FUNC_HEAD.replace("%x : i32, %y : i32, %z : i32", "%x : i64, %y : i64, %z : i64")
         return head + "\n".join(body) + "\n  func.return\n}\n"
+
+
+def carries_state_and_data(mlir):
+    """some scf.for / scf.if of the program carries the accelerator state next to >= 2 data results"""
+    import re
+    for ln in mlir.split("\n"):
+        if "scf.for" in ln or "scf.if" in ln:
+            m = re.search(r"-> \((.*)\) \{", ln)
+            if m and "!accfg.state" in m.group(1) and len(re.findall(r"\bi(32|64)\b", m.group(1))) >= 2:
+                return True
+    return False
 
 
 def decl_text(name, fields, launch, barrier):
@@ -298,6 +363,57 @@ def op_sig(op, data):
     return h32(repr((op.name, ops, res, props, attrs)))
 
 
+def ctl_tag(op, data):
+    """tag of an scf.for / scf.if: the op and its control operands (bounds+step / condition); results, iter
+    operands and yields are described positionally by the slots"""
+    from xdsl.dialects import scf
+    ctl = (op.lb, op.ub, op.step) if isinstance(op, scf.ForOp) else (op.cond,)
+    return h32(repr((op.name, [var_id(v, data) for v in ctl])))
+
+
+def _term(block):
+    from xdsl.dialects import scf
+    y = block.last_op
+    if not isinstance(y, scf.YieldOp):
+        raise ConvError("region does not end in scf.yield")
+    return y
+
+
+def _slots(cols, data):
+    """cols: per position the tuple of values that must agree on being state / data"""
+    out = []
+    for vs in cols:
+        st = [_is_state(v.type) for v in vs]
+        if any(_is_tok(v.type) for v in vs):
+            raise ConvError("token carried through control flow")
+        if all(st):
+            out.append(["s"])
+        elif not any(st):
+            out.append(["d"] + [var_id(v, data) for v in vs])
+        else:
+            raise ConvError("state and data mixed in one carried position")
+    return out
+
+
+def for_slots(op, data):
+    y = _term(op.body.block)
+    n = len(op.results)
+    if not (len(op.iter_args) == len(y.operands) == len(op.body.block.args) - 1 == n):
+        raise ConvError("scf.for: results / iter_args / block arguments / yield differ in length")
+    return _slots(list(zip(op.results, op.body.block.args[1:], op.iter_args, y.operands)), data)
+
+
+def if_slots(op, data):
+    if not op.results and not op.false_region.blocks:
+        if _term(op.true_region.block).operands:
+            raise ConvError("scf.if: yield without results")
+        return []
+    yt, ye = _term(op.true_region.block), _term(op.false_region.block)
+    if not (len(yt.operands) == len(ye.operands) == len(op.results)):
+        raise ConvError("scf.if: results / yields differ in length")
+    return _slots(list(zip(op.results, yt.operands, ye.operands)), data)
+
+
 def n_state(op):
     n = sum(1 for o in op.operands if _is_state(o.type)) + sum(1 for r in op.results if _is_state(r.type))
     for reg in op.regions:
@@ -324,11 +440,15 @@ def pure_rec(op):
     return is_side_effect_free(op)
 
 
-def src_block(block, data):
+def src_block(block, data, body=False):
     from snaxc.dialects import accfg
     from xdsl.dialects import builtin, scf
     out = []
-    for op in block.ops:
+    ops = list(block.ops)
+    if body:
+        _term(block)
+        ops = ops[:-1]      # the terminating scf.yield is described by the slots of the parent
+    for op in ops:
         if pure_rec(op):
             continue
         if isinstance(op, accfg.SetupOp):
@@ -339,10 +459,10 @@ def src_block(block, data):
         elif isinstance(op, accfg.AwaitOp):
             out.append(["await", op.token.type.accelerator.data])
         elif isinstance(op, scf.IfOp):
-            out.append(["if", op_sig(op, data), n_state(op), src_block(op.true_region.block, data),
-                        src_block(op.false_region.block, data) if op.false_region.blocks else []])
+            out.append(["if", ctl_tag(op, data), if_slots(op, data), src_block(op.true_region.block, data, True),
+                        src_block(op.false_region.block, data, True) if op.false_region.blocks else []])
         elif isinstance(op, scf.ForOp):
-            out.append(["for", op_sig(op, data), n_state(op), src_block(op.body.block, data)])
+            out.append(["for", ctl_tag(op, data), for_slots(op, data), src_block(op.body.block, data, True)])
         elif op.regions:
             raise ConvError(f"unsupported region op {op.name}")
         else:
@@ -362,11 +482,15 @@ def _created(op, data):
     return all(r.name_hint not in data for r in op.results)
 
 
-def tgt_block(block, data):
+def tgt_block(block, data, body=False):
     from xdsl.dialects import arith, llvm, scf
     from xdsl.dialects.builtin import IntegerType
     out = []
-    for op in block.ops:
+    ops = list(block.ops)
+    if body:
+        _term(block)
+        ops = ops[:-1]
+    for op in ops:
         if isinstance(op, arith.ConstantOp) and _created(op, data):
             for u in op.result.uses:
                 if not isinstance(u.operation, (llvm.InlineAsmOp,)):
@@ -421,15 +545,33 @@ def tgt_block(block, data):
                 raise ConvError("unrecognised scf.while (not the polling barrier)")
             out.append(["poll", b[0].value.value.data])
         elif isinstance(op, scf.IfOp):
-            out.append(["if", op_sig(op, data), n_state(op), tgt_block(op.true_region.block, data),
-                        tgt_block(op.false_region.block, data) if op.false_region.blocks else []])
+            out.append(["if", ctl_tag(op, data), if_slots(op, data), tgt_block(op.true_region.block, data, True),
+                        tgt_block(op.false_region.block, data, True) if op.false_region.blocks else []])
         elif isinstance(op, scf.ForOp):
-            out.append(["for", op_sig(op, data), n_state(op), tgt_block(op.body.block, data)])
+            out.append(["for", ctl_tag(op, data), for_slots(op, data), tgt_block(op.body.block, data, True)])
         elif op.regions:
             raise ConvError(f"unsupported region op {op.name}")
         else:
             out.append(["op", op_sig(op, data), n_state(op)])
     return out
+
+
+def dominance_ok(module):
+    """every operand is defined before its use (block arguments of enclosing regions, earlier ops of enclosing
+    blocks).  xDSL's verifier does not check this; the accfg pre-passes can break it (a C06 matter), and such a
+    module is not an input of the lowering."""
+    def walk(block, defined):
+        defined = set(defined) | set(block.args)
+        for op in block.ops:
+            if any(o not in defined for o in op.operands):
+                return False
+            for reg in op.regions:
+                for b in reg.blocks:
+                    if not walk(b, defined):
+                        return False
+            defined |= set(op.results)
+        return True
+    return all(walk(b, set()) for reg in module.regions for b in reg.blocks)
 
 
 def get_func(module, name="f"):
@@ -639,6 +781,10 @@ class C04(Prop):
             if c is not None:
                 made += 1
                 yield c
+        for _ in range(30 if quick else 500):
+            c = self.gen_threaded_case(rng)
+            if c is not None:
+                yield c
         for c in self.malformed_cases(rng, 12 if quick else 60):
             yield c
         n_rocc = 60 if quick else 1200
@@ -668,15 +814,80 @@ class C04(Prop):
             fs = [x[0] for x in f]
             used = rng.sample(fs, min(len(fs), rng.randint(2, 5)))
             pa.append((name, used, [x[0] for x in l]))
-        src = decls + ProgGen(rng, pa).program()
+        src = decls + ProgGen(rng, pa, carry=rng.random() < 0.6).program()
         passes = rng.choice(["accfg-trace-states,accfg-dedup", "accfg-trace-states,accfg-dedup,accfg-config-overlap",
                              "accfg-trace-states"])
         try:
             pre = snaxrun.run_passes(src, passes)
-            snaxrun.parse(pre).verify()
+            pm = snaxrun.parse(pre)
+            pm.verify()
+            if not dominance_ok(pm):
+                self.skipped_dominance = getattr(self, "skipped_dominance", 0) + 1
+                return None
         except BaseException:
             return None
         return {"kind": "lower", "accs": accs, "mlir": pre, "pre": passes, "envs": rng.sample(range(len(ENVS)), 4)}
+
+    def gen_threaded_case(self, rng):
+        """hand-threaded program (no tracer): a loop and a conditional carry the accelerator state at a RANDOM
+        position among 2..3 data values of one type; an epilogue setup uses every surviving result"""
+        a = gen_acc(rng, ("hwpe", "alu", "gemmx", "xdma", "phs"))
+        f, l, b = acc_op_tables(build_acc(a).generate_acc_op())
+        name = ACC_NAME[a["acc"]]
+        st, tk = f'!accfg.state<"{name}">', f'!accfg.token<"{name}">'
+        fs = rng.sample([x[0] for x in f], min(len(f), 4))
+        lf = [x[0] for x in l]
+
+        def launch(s_, t_, ind):
+            return [f'{ind}{t_} = "accfg.launch"({", ".join(["%lv"] * len(lf) + [s_])}) <{{param_names = [{", ".join(chr(34) + n + chr(34) for n in lf)}], '
+                    f'accelerator = "{name}"}}> : ({", ".join(["i5"] * len(lf) + [st])}) -> {tk}',
+                    f'{ind}"accfg.await"({t_}) : ({tk}) -> ()']
+
+        def setup(out_, from_, vals, ind):
+            ps = ", ".join(f'"{fld}" = {v} : i32' for fld, v in zip(fs, vals))
+            return f'{ind}{out_} = accfg.setup "{name}" ' + (f"from {from_} " if from_ else "") + f"to ({ps}) : {st}"
+        nd = rng.choice([2, 2, 3])
+        inits = rng.sample(["%x", "%y", "%z"], nd)
+        pos = rng.randint(0, nd)           # position of the state among the loop-carried values
+        res = [f"%r{k}" for k in range(nd)]
+        args = [f"%a{k}" for k in range(nd)]
+        nxt = [f"%n{k}" for k in range(nd)]
+
+        def weave(data, s_):
+            return data[:pos] + [s_] + data[pos:]
+        tys = weave(["i32"] * nd, st)
+        lines = [setup("%s0", None, inits, "  ")]
+        lines.append(f'  {", ".join(weave(res, "%sr"))} = scf.for %i = %lb to %ub step %st iter_args('
+                     + ", ".join(f"{x} = {y}" for x, y in zip(weave(args, "%sa"), weave(inits, "%s0"))) + f') -> ({", ".join(tys)}) {{')
+        for k in range(nd):
+            lines.append(f'    {nxt[k]} = arith.addi {args[k]}, {rng.choice(["%x", "%y", "%z"] + args)} : i32')
+        lines.append(setup("%s1", "%sa", nxt, "    "))
+        lines += launch("%s1", "%t1", "    ")
+        lines.append(f'    scf.yield {", ".join(weave(nxt, "%s1"))} : {", ".join(tys)}')
+        lines.append("  }")
+        pos2 = rng.randint(0, nd)
+        q = [f"%q{k}" for k in range(nd)]
+
+        def weave2(data, s_):
+            return data[:pos2] + [s_] + data[pos2:]
+        tys2 = weave2(["i32"] * nd, st)
+        lines.append(f'  {", ".join(weave2(q, "%sq"))} = scf.if {rng.choice(["%c0", "%c1"])} -> ({", ".join(tys2)}) {{')
+        perm = rng.sample(res, nd)
+        lines.append(setup("%s2", "%sr", perm, "    "))
+        lines.append(f'    scf.yield {", ".join(weave2(perm, "%s2"))} : {", ".join(tys2)}')
+        lines.append("  } else {")
+        alt = [rng.choice(res + ["%z"]) for _ in range(nd)]
+        lines.append(f'    scf.yield {", ".join(weave2(alt, "%sr"))} : {", ".join(tys2)}')
+        lines.append("  }")
+        lines.append(setup("%s3", "%sq", q + res, "  "))
+        lines += launch("%s3", "%t3", "  ")
+        src = decl_text(name, f, l, b) + FUNC_HEAD + "\n".join(lines) + "\n  func.return\n}\n"
+        try:
+            m = snaxrun.parse(src)
+            m.verify()
+        except BaseException:
+            return None
+        return {"kind": "lower", "accs": [a], "mlir": snaxrun.text(m), "pre": "threaded", "envs": rng.sample(range(len(ENVS)), 4)}
 
     def malformed_cases(self, rng, n):
         hw = {"acc": "hwpe"}
@@ -717,13 +928,17 @@ class C04(Prop):
             b = 0xBAD
         fields = [x[0] for x in f]
         # setups mostly configure whole instructions; sometimes only one operand from the start (never-set partner)
-        g = ProgGen(rng, [("gemmini", fields, [x[0] for x in l])], vtype="i64", pairs=rng.random() < 0.75)
+        g = ProgGen(rng, [("gemmini", fields, [x[0] for x in l])], vtype="i64", pairs=rng.random() < 0.75, carry=rng.random() < 0.3)
         src = decl_text("gemmini", f, l, b) + g.program().replace('"accfg.launch"(%lv, %lv', '"accfg.launch"(%x, %y').replace(
             '"accfg.launch"(%lw, %lv', '"accfg.launch"(%y, %x').replace('"accfg.launch"(%lv, %lw', '"accfg.launch"(%z, %x').replace(
             '"accfg.launch"(%lw, %lw', '"accfg.launch"(%z, %z').replace(": (i5, i5, !accfg.state", ": (i64, i64, !accfg.state")
         try:
             pre = snaxrun.run_passes(src, "accfg-trace-states,accfg-dedup")
-            snaxrun.parse(pre).verify()
+            pm = snaxrun.parse(pre)
+            pm.verify()
+            if not dominance_ok(pm):
+                self.skipped_dominance = getattr(self, "skipped_dominance", 0) + 1
+                return None
         except BaseException:
             return None
         return {"kind": "rocc", "mlir": pre, "envs": rng.sample(range(len(ENVS)), 4)}
@@ -775,6 +990,7 @@ class C04(Prop):
             try:
                 module = snaxrun.parse(case["mlir"])
                 module.verify()
+                assert dominance_ok(module)
             except BaseException:
                 return {"raised": "InvalidInput"}
             data = name_values(module)
@@ -788,6 +1004,7 @@ class C04(Prop):
             try:
                 module = snaxrun.parse(case["mlir"])
                 module.verify()
+                assert dominance_ok(module)
             except BaseException:
                 return {"raised": "InvalidInput"}
             data = name_values(module)
@@ -891,6 +1108,8 @@ class C04(Prop):
             return {"ops": out}
 
     def compare(self, case, impl_out, model_out):
+        if isinstance(impl_out, dict) and impl_out.get("raised") == "InvalidInput":
+            return None      # not a program (only reachable from the shrinker)
         if isinstance(impl_out, dict) and "raised" in impl_out:
             impl_out = {"raised": impl_out["raised"]}
         if canon_json(impl_out) == canon_json(model_out):
@@ -1048,6 +1267,15 @@ class C04(Prop):
             # partner operand never set on some path and not recoverable: the code documents this limitation; it is
             # an error outcome, not a wrong instruction
             return bad
+        except ValueError as ex:
+            if "insertion point must have a parent block" not in str(ex):
+                raise
+            # DC04b: lower_acc_setup's default branch builds a replacement accfg.setup that is never inserted but
+            # keeps uses of its operands; when such an operand is a result of a control-flow op that
+            # DeleteAllStates rebuilds, the greedy driver visits the detached op and crashes
+            bad.append({"what": f"convert-accfg-to-csr crashed on a well-formed RoCC program: ValueError: {ex}",
+                        "finding": "DC04b" if self._stateless_partial_uses_ctl_result(before) else None})
+            return bad
         if any(_is_state(r.type) for o in after.walk() for r in o.results) or count_states(after):
             bad.append({"what": "accfg.state values survive the RoCC lowering", "finding": None})
         f7_instr = {}
@@ -1124,6 +1352,22 @@ class C04(Prop):
         return bad
 
     @staticmethod
+    def _stateless_partial_uses_ctl_result(module):
+        """a setup WITHOUT input state sets one operand of some instruction only (so defaults are materialised) and
+        one of its values is a result of an scf.for / scf.if that carries accelerator state"""
+        from snaxc.dialects import accfg
+        from xdsl.dialects import scf
+        for op in module.walk():
+            if isinstance(op, accfg.SetupOp) and op.in_state is None:
+                names = {n for n, _ in op.iter_params()}
+                partial = any(len({n[:-4] + ".rs1", n[:-4] + ".rs2"} & names) == 1 for n in names)
+                ctl = any(isinstance(v.owner, (scf.ForOp, scf.IfOp)) and any(_is_state(r.type) for r in v.owner.results)
+                          for _, v in op.iter_params())
+                if partial and ctl:
+                    return True
+        return False
+
+    @staticmethod
     def _stateless_partial(module, field):
         """the program has a setup WITHOUT input state that configures only one operand of `field`'s instruction"""
         from snaxc.dialects import accfg
@@ -1152,6 +1396,8 @@ class C04(Prop):
             k += ":" + case["acc"]
         elif k == "lower":
             k += ":" + "+".join(a["acc"] for a in case["accs"]) + (":malformed" if case.get("malformed") else "")
+            if carries_state_and_data(case["mlir"]):
+                k += ":state+2data"
         if isinstance(impl_out, dict) and "raised" in impl_out:
             k += ":raised:" + impl_out["raised"]
         return k
